@@ -8,6 +8,7 @@ import Lomond.Model.Frame
 import Lomond.Model.Http
 import Lomond.Model.Core
 import Lomond.Model.Persist
+import Lomond.Model.Connect
 import Lomond.Model.Handshake
 import Lomond.Model.Proxy
 import Lomond.Model.Transport
@@ -371,9 +372,28 @@ def runFrame (args : List String) : String :=
     hexOfBytes (buildClosePayload (if code = "N" then none else some (natOf code)) (hexD reason))
   | _ => "bad-op"
 
+/-- `connect -` (name does not resolve) or `connect o1,o2,…` with `oi ∈ {ok, sfail, cfail}`;
+    answer: `<sockN|fail> <call>,<call>,…` -/
+def runConnect (arg : String) : String :=
+  let gai : Option (List Connect.AddrOutcome) :=
+    if arg = "-" then none
+    else if arg = "" then some []
+    else some ((arg.splitOn ",").map fun t =>
+      if t = "ok" then Connect.AddrOutcome.ok else if t = "sfail" then .sockCreateFail else .connectFail)
+  let (r, l) := Connect.connectSock gai
+  let rs := match r with
+    | .sock i => "sock" ++ toString i
+    | .fail => "fail"
+  let showCall : Connect.Call → String
+    | .socket i => "socket" ++ toString i
+    | .connect i => "connect" ++ toString i
+    | .close i => "close" ++ toString i
+  rs ++ " " ++ ",".intercalate (l.map showCall)
+
 def handle (line : String) : String :=
   if line.startsWith "core " then runCore (line.drop 5).toString
   else if line.startsWith "persist " then runPersist (line.drop 8).toString
+  else if line.startsWith "connect " then runConnect (line.drop 8).toString
   else if line.startsWith "proxy " then runProxy (line.drop 6).toString
   else if line.startsWith "xport " then runXport (line.drop 6).toString
   else
